@@ -131,6 +131,10 @@ var templates = []func(u string) string{
 		return "rec(keys({\"a\": base}))\nrec(range(3))\nrec(range(1, 7, 2))\nrec(typeOf(base))\nrec(kindOf(\"s\"))\nrec(toString(base))\nrec(toInt(\"4\") + base)\nrec(toFloat(\"1.5\"))\nrec(toBool(\"true\"))\nrec(defined(\"base\"))\nrec(defined(\"nope" + u + "\"))\nzz" + u + " = 1\nrec(defined(\"zz" + u + "\"))\nrec(toIntSlice([1, base]))\nrec(toStringSlice([\"a\"]))"
 	},
 	func(u string) string {
+		// a nil-valued variable and a "no result" value, written through a pointer
+		return "a" + u + " = nil\nb" + u + " = &a" + u + "\n*b" + u + " = base\nrec(nil)\nfunc f" + u + "() { }\ny" + u + " = f" + u + "()\np" + u + " = &y" + u + "\n*p" + u + " = base\nrec(f" + u + "())\nrec(nil == nil)\nif false { }\nrec([nil, f" + u + "()])"
+	},
+	func(u string) string {
 		// absolute probes: results every environment must get whatever ran before in this process
 		return "must(defined(\"base\"))\nmust(!defined(\"nope" + u + "\"))\nyy" + u + " = base\nmust(defined(\"yy" + u + "\"))\nr" + u + " = range(4)\nr" + u + "[0] = 99\nmust(range(4)[0] == 0)\nmust(len(range(4)) == 4)\nk" + u + " = keys({\"a\": 1})\nk" + u + "[0] = \"zz\"\nmust(keys({\"a\": 1})[0] == \"a\")\nt" + u + " = toIntSlice([1, 2])\nt" + u + "[0] = 7\nmust(toIntSlice([1, 2])[0] == 1)\nmust(toString(base) == \"\" + base)\nmust(typeOf(base) == \"int64\")\nmust(import(\"strings\").ToUpper(\"q\") == \"Q\")\nmust(import(\"strconv\").Itoa(7) == \"7\")"
 	},
@@ -465,8 +469,9 @@ func packagesDigest() string {
 
 const globalsSrc = "r = []\nr += 4095 + 0\nr += 4095 + 1\nr += -1 + 0\nr += -2 + 1\nr += -2 + 0\ni = 5\ni++\nr += i\ni--\ni--\nr += i\nr += nil == nil\nr += true\nr += false\nr += !true\nj = 4095\nj++\nr += j\n" +
 	"s = import(\"strings\")\nr += s.ToUpper(\"x\")\ns.ToUpper = func(a) { return \"hacked\" }\nr += s.ToUpper(\"x\")\nt = import(\"strings\")\nr += t.ToUpper(\"y\")\n" +
-	"import(\"strings\").ToLower = func(a) { return \"hacked\" }\nr += import(\"strings\").ToLower(\"Z\")\nr\n"
-const globalsWant = "[4095 4096 -1 -1 -2 6 4 true true false false 4096 X hacked Y z]"
+	"import(\"strings\").ToLower = func(a) { return \"hacked\" }\nr += import(\"strings\").ToLower(\"Z\")\n" +
+	"func noresult() { }\nr += typeOf(nil)\nr += typeOf(noresult())\nr += typeOf([nil][0])\nr\n"
+const globalsWant = "[4095 4096 -1 -1 -2 6 4 true true false false 4096 X hacked Y z nil nil nil]"
 
 // the loop is driven by a host slice, so that a corrupted cache slot cannot make the scan itself diverge
 const scanSrc = "s = 0\nq = 0\nfor v in vals {\nw = v + 0\ns += w\nq += w * w\n}\n[s, q]\n"
@@ -504,7 +509,7 @@ func ScanSmallInts() string {
 // ProcessGlobals evaluates expressions that depend on the process-wide shared
 // values and returns a description of any deviation.
 func ProcessGlobals() string {
-	v, err := vm.Execute(env.NewEnv(), &vm.Options{}, globalsSrc)
+	v, err := vm.Execute(core.Import(env.NewEnv()), &vm.Options{}, globalsSrc)
 	if err != nil {
 		return "probe script failed: " + err.Error()
 	}
